@@ -64,6 +64,7 @@ def run_verus(unit_rs, rlimit=None, seed=None):
 def classify(unit, meta, res):
     """Returns dict: failed = list of {ob, props, fn, msg, rendered, kind}, undecided = list of reasons, stats"""
     failed, undecided = [], []
+    frontend = []    # (function the error lies in or None, message)
     line_ob = meta['line_ob']
     obl = meta['obligations']
     fn_ranges = meta['fn_ranges']
@@ -104,6 +105,9 @@ def classify(unit, meta, res):
             continue
         if not any(x in low for x in SEMANTIC):
             undecided.append('front-end error: ' + msg + ' ' + (rendered.split('\n')[1] if '\n' in rendered else ''))
+            sp = [s for s in spans if s.get('is_primary')] or spans
+            f = fn_at(sp[0]['line_start']) if sp else None
+            frontend.append((f[2] if f else None, msg))
             continue
         # semantic failure: find the clause span and the location span
         clause = None
@@ -132,7 +136,7 @@ def classify(unit, meta, res):
         if not undecided: undecided.append('verus VIR error')
     if not vr.get('success') and not failed and not undecided:
         undecided.append('verus reported failure without a classifiable diagnostic: ' + res['stderr_tail'][-300:])
-    return {'failed': failed, 'undecided': undecided, 'verified': vr.get('verified', 0), 'errors': vr.get('errors', 0)}
+    return {'failed': failed, 'undecided': undecided, 'verified': vr.get('verified', 0), 'errors': vr.get('errors', 0), 'frontend': frontend}
 
 def fn_times(res):
     out = {}
@@ -159,16 +163,33 @@ def verify_unit(unit, tier):
     for (a, b, q, saf) in meta['fn_ranges']:
         if '::' in q and not q.split('::')[1].startswith(('impl ', 'fn ')) or True:
             pass
-    h = hashlib.sha256((text + verus_version() + tier).encode()).hexdigest()[:24]
+    h = hashlib.sha256((text + verus_version() + tier + 'logic-v2').encode()).hexdigest()[:24]
     os.makedirs(CACHE, exist_ok=True)
     cpath = os.path.join(CACHE, unit + '.' + h + '.json')
     if os.path.exists(cpath) and not os.environ.get('VERIF_NO_CACHE'):
         r = json.load(open(cpath))
         r['cached'] = True
-        r['meta'] = meta
+        r['meta'] = r.get('meta_degraded') or meta
         return r
     res = run_verus(out_rs)
     cl = classify(unit, meta, res)
+    # Front-end errors that all lie inside extracted functions (an annotation that names a renamed local, a construct
+    # outside the subset introduced by a change): those functions are degraded to signature + contract for this run
+    # and the rest of the unit is verified; only the properties their obligations carry become undecided.
+    fe = cl.get('frontend') or []
+    assumed_now = set(a['fn'] for a in meta.get('assumed_fns', []))
+    if fe and all(q is not None and q not in assumed_now for (q, m) in fe):
+        deg = {}
+        for (q, m) in fe: deg.setdefault(q, 'verifier front-end error: ' + m[:160])
+        try:
+            out2, meta2 = asm.assemble(unit, UNITS_OUT, degrade=deg)
+            res2 = run_verus(out2)
+            cl2 = classify(unit, meta2, res2)
+            if not cl2.get('frontend'):
+                out_rs, meta, res, cl = out2, meta2, res2, cl2
+                text = open(out_rs).read()
+        except asm.AnchorError:
+            pass
     # resource-limit retry (DESIGN §7): doubled rlimit, other seed
     if any(u.startswith('resource limit') for u in cl['undecided']):
         res2 = run_verus(out_rs, rlimit=20, seed=7)
@@ -186,6 +207,7 @@ def verify_unit(unit, tier):
          'trusted_scan': scan_trusted(text), 'sha': h, 'cached': False, 'stability': stability,
          'smt_ms': ((res.get('json') or {}).get('times-ms') or {}).get('smt', {}).get('total'),
          'total_ms': ((res.get('json') or {}).get('times-ms') or {}).get('total')}
+    r['meta_degraded'] = meta if meta.get('degraded_fns') else None
     json.dump(r, open(cpath, 'w'))
     r['meta'] = meta
     return r
@@ -198,6 +220,11 @@ def load_known():
 
 def load_baseline():
     p = os.path.join(ROOT, 'specs', 'baseline_obligations.json')
+    if os.path.exists(p): return json.load(open(p))
+    return {}
+
+def load_fn_baseline():
+    p = os.path.join(ROOT, 'specs', 'baseline_functions.json')
     if os.path.exists(p): return json.load(open(p))
     return {}
 
@@ -236,6 +263,7 @@ def main():
     trusted = set(pc.get('trusted_base', []))
     solver_ms = 0
     obligations_seen = {}
+    fn_meta = {}
     for unit in pc['units']:
         try:
             r = verify_unit(unit, tier)
@@ -251,6 +279,13 @@ def main():
         failed_obs = {}
         for f in cl['failed']:
             failed_obs.setdefault(f['ob'], []).append(f)
+        for d in meta.get('degraded_fns', []):
+            props = set(d.get('safety', []))
+            for oid, pr in d.get('obligations', {}).items(): props |= set(pr)
+            if pid in props:
+                mine = sorted(oid for oid, pr in d.get('obligations', {}).items() if pid in pr)
+                undecided.append('unit %s: lost anchor: %s could not be kept under contract after the change (%s); undecided obligations: %s' % (unit, d['fn'].split('::')[-1], d['reason'][:300], ', '.join(mine) or 'safety'))
+            trusted.add('DEGRADED in this run (body not verified): %s [%s]' % (d['fn'], d['reason'][:120]))
         # tagged obligations of this property
         for oid, o in meta['obligations'].items():
             if pid not in o['props']: continue
@@ -294,6 +329,8 @@ def main():
             if fname not in own and pid == 'C16':
                 n_obl += 1
                 failed_all.append(dict(f, unit=unit, full=unit + '/' + f['ob'], kind='ownership'))
+        for fm in meta['functions']:
+            fn_meta[fm['fn']] = fm
         ft = r['fn_times']
         assumed = {a['fn']: a['checked_by'] for a in meta.get('assumed_fns', [])}
         for a in meta.get('assumed_fns', []):
@@ -366,6 +403,26 @@ def main():
             no_base.append(f)
     for f in no_base:
         undecided.append('obligation %s fails but has never been discharged on the unchanged tree (no baseline): %s' % (f['full'], f['msg']))
+    # A failed proof is not yet a violation where the proof rests on hand-written loop invariants / proof hints and
+    # the function's text has changed (or its annotations had to be re-bound to renamed locals): such a failure may
+    # only mean that the invariant no longer fits the new shape of the code.  It is reported as a violation only with
+    # a concrete failing input on the real code; otherwise it is UNDECIDED (and the twin fallback below gets its turn).
+    fn_base = load_fn_baseline()
+    for f in list(violations):
+        fm = fn_meta.get(f.get('fn') or '')
+        if not fm or f.get('kind') not in ('clause', 'safety'): continue
+        changed = fn_base.get(fm['fn']) not in (None, fm['sha256'])
+        if fm.get('rebound') or (fm.get('annotated_body') and changed):
+            if not f.get('witness'):
+                try:
+                    import replaytool, witness
+                    ok, err = replaytool.build_replay_bin()
+                    if ok: f['witness'] = witness.search(pid, f)
+                except Exception:
+                    pass
+            if not f.get('witness'):
+                violations.remove(f)
+                undecided.append('lost anchor: the proof of %s no longer goes through after a change inside %s, whose proof rests on hand-written loop invariants / hints%s; no failing input was found, so it is not reported as a violation' % (f['full'], fm['fn'].split('::')[-1], ' (annotations re-bound to renamed locals)' if fm.get('rebound') else ''))
     wall = time.time() - t0
     rc = 0
     for (f, k) in known_hits:
@@ -436,6 +493,9 @@ def main():
         failed_set = set(f['full'] for f in failed_all)
         b[pid] = {k: True for k in obligations_seen if k not in failed_set}
         json.dump(b, open(os.path.join(ROOT, 'specs', 'baseline_obligations.json'), 'w'), indent=1, sort_keys=True)
+        fb = load_fn_baseline()
+        for q, fm in fn_meta.items(): fb[q] = fm['sha256']
+        json.dump(fb, open(os.path.join(ROOT, 'specs', 'baseline_functions.json'), 'w'), indent=1, sort_keys=True)
     # ---- thorough tier: things that can only lower confidence in the evidence, never raise an alarm ----
     thorough = {}
     if tier == 'thorough':
